@@ -24,6 +24,20 @@ def run_product(case):
     level = "1.5" if case["nmap"] == 1 else "1.1"
     images = [(im["pol"], im["scan"] or None, 2 + i, 1 + (i % 2)) for i, im in enumerate(imgs)]
     b = product.build_product(level=level, images=images, seed=case["seed"])
+    # "any order of sections in the summary": the file roles follow the numbering of the ...ProductFileNameNN keys, so the lines may
+    # come in any order (SummaryGrammar!OrderIndependent): as written / reversed / sections interleaved round-robin / shuffled
+    mode = case["seed"] % 4
+    lines = list(b.summary_lines)
+    if mode == 1:
+        lines.reverse()
+    elif mode == 2:
+        by = {}
+        for ln in lines:
+            by.setdefault(ln[:3], []).append(ln)
+        lines = [q[i] for i in range(max(map(len, by.values()))) for q in by.values() if i < len(q)]
+    elif mode == 3:
+        random.Random(case["seed"]).shuffle(lines)
+    b.files["summary.txt"] = ("\r\n" if case["seed"] % 8 >= 4 else "\n").join(lines).encode() + b"\n"
     url = imgrun.put_on_fs(b, case["fs"], f"c13_{case['seed']}")
     out = {"case": case, "bad": []}
     try:
